@@ -2,7 +2,7 @@
 # check run (driver/rust2coq.py + driver/r2c_table.py); hooked into translate.regenerate_all() through fragments().
 # Proofs/SrcEq<Module>.v proves every regenerated definition equal to the hand-written model function, so the theorems
 # about the models are re-checked against what the code says now.
-import os, sys
+import os, sys, re
 import translate
 from translate import TieBroken, write_if_changed, _src
 from common import COQDIR
@@ -100,6 +100,13 @@ def render_module(mod, ent, cache):
             errors[spec["name"]] = str(e)
             L.append("(* TIE BROKEN -- s_%s is not generated: %s *)\n" % (spec["name"], str(e).replace("*)", "* )")))
             continue
+        body_text = rust2coq.pp(term, 2)
+        # literals the model takes as named parameters: a function that uses ANY of them takes ALL of them, in the fixed order of
+        # the table -- so that a source that uses 0.25 where the model expects 0.5 changes the regenerated function (with Section
+        # variables the two would be indistinguishable after the section is closed)
+        lit_params = ent.get("lit_params", [])
+        if lit_params and any(re.search(r"(?<![A-Za-z0-9_])%s(?![A-Za-z0-9_'])" % re.escape(n), body_text) for n, _ in lit_params):
+            gparams = list(lit_params) + list(gparams)
         ps = " ".join("(%s : %s)" % (n, t) for n, t in gparams)
         L.append("(* %s : impl %s :: fn %s *)" % (rel, " ".join(header.split()), spec["fn"]))
         gty = rust2coq.gtype(rty)
